@@ -83,6 +83,17 @@ def module? : Sexp → Option Module
       some ⟨← str? n, ← strs? ids, insts⟩
   | _ => none
 
+def seg? : Sexp → Option Seg
+  | .list [.atom "n", s] => do some (.name (← str? s))
+  | .list [.atom "i", i] => do some (.idx (← i.nat?))
+  | _ => none
+
+def paths? : Sexp → Option (List (List Seg))
+  | .list ps => ps.mapM (fun
+      | .list segs => segs.mapM seg?
+      | _ => none)
+  | _ => none
+
 def showTable (t : List (String × Nat)) : String :=
   "(" ++ " ".intercalate (t.map (fun e => "(" ++ showStr e.1 ++ " " ++ toString e.2 ++ ")")) ++ ")"
 
@@ -126,6 +137,21 @@ def handle (args : List Sexp) : Option String :=
       let s ← str? s
       some s!"{b2s (idShape s)} {b2s (legalId s)}"
   | [.atom "reserved"] => some (showStrs verilogReserved)
+  -- identifiers of a module scope: the identifier of every path, the identifiers declared more than once (each once),
+  -- are all user names well formed
+  | [.atom "flat", ps] => do
+      let ps ← paths? ps
+      some s!"{showStrs (ps.map flatId)} {showStrs (flatCollisions ps).eraseDups} {b2s (ps.all (fun p => p.all Seg.ok))}"
+  | [.atom "okname", s] => do some (b2s (okName (← str? s)))
+  -- struct type: full name, emitted name, class name well formed, no nested struct + field names well formed, widths of
+  -- the vectors it is made of (`((8 4))`: nested, so that the list is not read as a string)
+  | [.atom "swf", h, cls, .list fs] => do
+      let H := hashOf (← htable? h)
+      match ← dt? (.list [.atom "struct", cls, .list fs]) with
+      | .struct c f =>
+        let ws := " ".intercalate ((DT.struct c f).leafWidths.map toString)
+        some s!"{showStr (DT.fullName (.struct c f))} {showStr (structName H c f)} {b2s (okName c)} {b2s (flatStruct f)} (({ws}))"
+      | _ => none
   | _ => none
 
 end PV.Driver.Names
